@@ -136,6 +136,9 @@ func anomalies(s *session, kind FKind, a, b run) []string {
 		if i >= len(b.obs) {
 			break
 		}
+		if a.obs[i] == "BUDGET" || b.obs[i] == "BUDGET" {
+			return out // out of steps (the failure kinds use different numbers of steps): inconclusive from here on
+		}
 		if a.obs[i] != b.obs[i] && b.obs[i] != "SKIP" {
 			add("twin", i, "impl "+a.obs[i]+" twin "+b.obs[i]+" src "+esc(s.Texts[i].Src))
 			break
@@ -151,6 +154,11 @@ func anomalies(s *session, kind FKind, a, b run) []string {
 func catchAnomalies(s *session, kind FKind, a, clean run) []string {
 	var out []string
 	for i, o := range a.obs {
+		if o == "BUDGET" || (i < len(clean.obs) && clean.obs[i] == "BUDGET") {
+			// the nested evaluation of the catcher consumed steps of the text's budget: a text that runs
+			// out of steps stops at a different point than in the clean run; inconclusive from here on
+			return out
+		}
 		if i < len(clean.obs) && o != clean.obs[i] {
 			out = append(out, fmt.Sprintf("catch kind=%s text=%d impl %s clean-run %s src %s", kind, i, o, clean.obs[i], esc(s.Texts[i].Src)))
 			return out
@@ -198,7 +206,7 @@ func (s *session) sources() string {
 // build a session from a program.
 func build(p *Program, rng *lib.Rng, tags []string) *session {
 	s := &session{P: p, Names: definedNames(p), Tags: tags}
-	st := Style{NoTCO: true, NoAppendAlias: true}
+	st := Style{NoTCO: true}
 	switch rng.Intn(3) {
 	case 0:
 		st.Rng = rng.Fork()
@@ -531,7 +539,7 @@ func shrunkCase(s *session, anom string, kinds []FKind) *caseRec {
 	class := classOf(anom)
 	rebuild := func(p *Program) *session {
 		s2 := &session{P: p, Names: s.Names, Tags: []string{"shrunk"}}
-		s2.Texts = append(s2.Texts, progText(p, Style{NoTCO: true, NoAppendAlias: true}, "prog"))
+		s2.Texts = append(s2.Texts, progText(p, Style{NoTCO: true}, "prog"))
 		for _, t := range s.Texts {
 			if t.Role == "interlude" {
 				s2.Texts = append(s2.Texts, t)
